@@ -844,7 +844,7 @@ def install(ex):
             if isinstance(v, VecV): return list(v.items)
             if isinstance(v, list): return list(v)
             if isinstance(v, EnumV) and v.ty == "Option": return list(v.fields)
-            if isinstance(v, MapV): return [TupleV([k, val]) for k, val in v.d.values()]
+            if isinstance(v, MapV): return [TupleV([v.d[k][0], v.d[k][1]]) for k in (ex.ordered_keys(v) if hasattr(ex, "ordered_keys") else list(v.d))]
             raise Unsupported("seq_of %r" % (v,))
         if c.endswith("as Iterator>::flatten"):
             outer = a[0]
@@ -954,9 +954,11 @@ def install(ex):
             return Ref(m.d[k], 1)
         if c in ("BTreeMap::iter", "HashMap::iter"):
             m = a[0].get() if isinstance(a[0], Ref) else a[0]
-            keys = list(m.d.keys())
-            if m.kind == "btree":
-                import functools; keys.sort(key=functools.cmp_to_key(lambda x, y: cmp_val_k(x, y)))
+            if hasattr(ex, "ordered_keys"): keys = ex.ordered_keys(m)
+            else:
+                keys = list(m.d.keys())
+                if m.kind == "btree":
+                    import functools; keys.sort(key=functools.cmp_to_key(lambda x, y: cmp_val_k(x, y)))
             return mk_iter([TupleV([Ref(m.d[k], 0), Ref(m.d[k], 1)]) for k in keys])
         if c == "BTreeMap::entry" or c == "HashMap::entry":
             m_ = a[0].get() if isinstance(a[0], Ref) else a[0]; occ = key_repr(a[1]) in m_.d
